@@ -21,7 +21,7 @@
 //!       2 s of virtual time.  "Either ignored or error visible to the application" is read as: no call hangs;
 //!       WHICH scope the library shuts down and whether a call on a surviving scope returns Ok or Err is not
 //!       judged (recorded in the evidence as the outcome class);
-//!   (3) work in proportion: real time from injecting the bad input to quiescence <= 2 s (a frame is at most
+//!   (3) work in proportion: CPU time of the executing thread from injecting the bad input to quiescence <= 2 s (a frame is at most
 //!       64 KiB and is normally handled in well under a millisecond), the whole execution <= 2.5 s and inside
 //!       the watchdog (quick 2.2 s, thorough 5 s), no single allocation above 64 MiB while the bad input is
 //!       processed;
@@ -49,13 +49,13 @@ use vlib::report::{Ctx, Outcome};
 use vlib::runner::{run_exec, Exec, RunCfg, Scenario};
 use vlib::util::{hex, unhex};
 
-/// real time an execution may take before it is abandoned
+/// CPU time an execution may take before it is abandoned
 const WATCHDOG_QUICK: Duration = Duration::from_millis(2200);
 const WATCHDOG_THOROUGH: Duration = Duration::from_secs(5);
-/// real time the endpoint may spend on one bad input (a frame of at most 64 KiB)
+/// CPU time the endpoint may spend on one bad input (a frame of at most 64 KiB)
 const SLOW_MS: f64 = 2000.0;
 const ALLOC_LIMIT: usize = 64 << 20;
-/// real time a whole execution may take (it normally takes a few milliseconds)
+/// CPU time a whole execution may take (it normally takes a few milliseconds)
 const EXEC_SLOW_MS: f64 = 2500.0;
 
 fn watchdog(thorough: bool) -> Duration {
@@ -144,9 +144,10 @@ fn run_case(case: &Case, thorough: bool) -> (Exec<Obs>, f64) {
     let c = case.clone();
     let scen: Scenario<Obs> = Arc::new(move || Box::pin(scen15::scenario(c.clone())));
     let cfg = RunCfg { real_timeout: watchdog(thorough), ..RunCfg::none() };
-    let t0 = Instant::now();
     let ex = run_exec(vec![], &cfg, &scen);
-    (ex, t0.elapsed().as_secs_f64() * 1000.0)
+    // "work" is the CPU time of the executing thread: wall-clock time also measures what else the machine does
+    let cpu = ex.cpu_ms;
+    (ex, cpu)
 }
 
 #[derive(Debug, Clone, Default, serde::Serialize, serde::Deserialize)]
@@ -213,7 +214,7 @@ fn judge(idx: usize, case: &Case, ex: &Exec<Obs>, wall_ms: f64, thorough: bool) 
         r.poison = true;
         r.fails.push((
             format!("disproportionate-work [{fam}]"),
-            format!("the execution did not finish within {:?} of REAL time (a case normally takes a few milliseconds): the endpoint keeps computing on one input. {}", watchdog(thorough), case.describe()),
+            format!("the execution used more than {:?} of CPU time without finishing (a case normally takes a few milliseconds): the endpoint keeps computing on one input. {}", watchdog(thorough), case.describe()),
         ));
         return r;
     }
@@ -243,13 +244,13 @@ fn judge(idx: usize, case: &Case, ex: &Exec<Obs>, wall_ms: f64, thorough: bool) 
     if wall_ms > EXEC_SLOW_MS && obs.bad_ms <= SLOW_MS {
         r.fails.push((
             format!("disproportionate-work [{fam}]"),
-            format!("the execution took {:.0} ms of real time (a case normally takes a few milliseconds; the bad input was {} bytes)\n{}", wall_ms, obs.bad_bytes, ctx(&obs)),
+            format!("the execution took {:.0} ms of CPU time (a case normally takes a few milliseconds; the bad input was {} bytes)\n{}", wall_ms, obs.bad_bytes, ctx(&obs)),
         ));
     }
     if obs.bad_ms > SLOW_MS {
         r.fails.push((
             format!("disproportionate-work [{fam}]"),
-            format!("processing the bad input ({} bytes) to quiescence took {:.0} ms of real time\n{}", obs.bad_bytes, obs.bad_ms, ctx(&obs)),
+            format!("processing the bad input ({} bytes) to quiescence took {:.0} ms of CPU time\n{}", obs.bad_bytes, obs.bad_ms, ctx(&obs)),
         ));
     }
     if obs.max_alloc > ALLOC_LIMIT {
@@ -381,7 +382,9 @@ fn sweep(ctx: &Ctx, list: &Arc<Vec<Case>>, thorough: bool, machinery: &Mutex<Vec
     let results: Mutex<Vec<Res>> = Mutex::new(Vec::with_capacity(list.len()));
     let cut = std::sync::atomic::AtomicBool::new(false);
     let deadline = ctx.budget_s * 0.9;
-    let per_case = watchdog(thorough) + Duration::from_secs(20);
+    // the worker's own watchdog counts CPU time and has a wall-clock back-stop of 20 x budget + 2 min (vlib::runner);
+    // this outer one only catches a worker that is stuck outside an execution
+    let per_case = watchdog(thorough) * 20 + Duration::from_secs(150);
     const BATCH: usize = 1;
     let n_single = list.iter().take_while(|c| matches!(c.bad, Bad::Item(_))).count();
     std::thread::scope(|sc| {
